@@ -228,7 +228,7 @@ Rebind(R, old, new, fin) ==
 
 ----------------------------------------------------------------------------
 (* THE CATALOGUE: per shape two sets of three distinct actions of the same form *)
-AllShapes == {"scalar", "string", "cat", "dense", "densecat", "nested", "sparse", "sparsecat", "sparsecatk", "sparsenest", "sparsepart"}
+AllShapes == {"scalar", "string", "cat", "dense", "densecat", "nested", "sparse", "sparsecat", "sparsecatk", "sparsenest", "sparsepart", "sparsezero"}
 ShapeSets(sh) ==
   CASE sh = "scalar"   -> << <<Num(1), Num(2), Num(3)>>, <<Num(2), Num(5), Num(0)>> >>
     [] sh = "string"   -> << <<Str("a"), Str("b"), Str("c")>>, <<Str("c"), Str("d"), Str("a")>> >>
@@ -249,6 +249,10 @@ ShapeSets(sh) ==
                             \* interaction and leave others (in set 2 the FIRST one) as they are
                             << <<Map({Ent("x", NSq(<<1, 2>>))}), Map({Ent("y", Num(1))}), Map({Ent("x", NSq(<<2, 2>>)), Ent("y", Num(2))})>>,
                                <<Map({Ent("y", Num(2))}), Map({Ent("x", NSq(<<1, 2>>))}), Map({Ent("x", NSq(<<0, 2>>)), Ent("y", Num(1))})>> >>
+    [] sh = "sparsezero" -> \* sparse actions that STORE a 0: as mappings {x:1,y:0} and {x:1,z:2} differ, and so do the vectors Densify makes
+                            \* of them (the entries that are not 0 differ) - in both orders
+                            << <<Map({Ent("x", Num(1)), Ent("y", Num(0))}), Map({Ent("x", Num(1)), Ent("z", Num(2))}), Map({Ent("z", Num(2))})>>,
+                               <<Map({Ent("x", Num(1)), Ent("z", Num(2))}), Map({Ent("x", Num(1)), Ent("y", Num(0))}), Map({Ent("z", Num(2))})>> >>
     [] sh = "sparsenest" -> << <<Map({Ent("x", NSq(<<1, 2>>)), Ent("y", Num(1))}), Map({Ent("x", NSq(<<0, 2>>))}), Map({Ent("x", NSq(<<2, 2>>)), Ent("y", Num(2))})>>,
                                <<Map({Ent("x", NSq(<<3, 0>>))}), Map({Ent("x", NSq(<<1, 1>>)), Ent("y", Num(1))}), Map({Ent("x", NSq(<<1, 1>>))})>> >>
 
@@ -423,5 +427,9 @@ Emit ==
       batched |-> [d \in DOMAIN hist |-> hist[d].batched],
       kinds   |-> [d \in DOMAIN hist |-> hist[d].kind],
       expR  |-> case.expR, expF |-> case.expF, M |-> case.M, LR |-> case.LR, LP |-> case.LP,
-      finOK |-> FinOK, finGroups |-> FinGroups, reuse |-> Reuse ]))
+      finOK |-> FinOK, finGroups |-> FinGroups, reuse |-> Reuse,
+      (* Injective holds in this state: the real action objects of every interaction must be pairwise different under   *)
+      (* their own == (both ways round) and each must be found at its own position by list.index - the equality of the *)
+      (* row types the filters produce is what every re-keyed reward function and the logged action rely on            *)
+      injective |-> Injective ]))
 =============================================================================
